@@ -1197,3 +1197,14 @@ UNIT_META["chain_write"] = {"functions": ["table::ValueTable::overwrite_chain (a
 PROPS["C06"]["verus_units"] = list(PROPS["C06"].get("verus_units", [])) + ["chain_write"]
 PROPS["C06"]["claim"] = PROPS["C06"]["claim"] + " Writer side for a fresh value, unbounded (Verus: any value length, any number of parts): ValueTable::overwrite_chain lays the value out over a chain of distinct slots starting at the slot it returns -- each part starts where the previous one ended, the first carries the chain marker (or, if the value fits one slot, the size word), the counter 1 of a counted table and the stored key, middle parts carry the continuation marker, every chained part links to the next and holds exactly the payload bytes that fill its slot, the last part carries the size word of what remains -- takes every further slot from the free set, never slot 0, writes no other slot, and takes no out-of-range slice of the value."
 PROPS["C06"]["technique"] = PROPS["C06"]["technique"] + "; Verus contract on the real overwrite_chain (fresh values, unbounded) with the entry cursor by contract"
+
+# ---------------------------------------------------------------- U82 (Verus: ValueTable::overwrite_chain replacing a stored value, unbounded)
+UNIT_META["chain_replace"] = {"functions": ["table::ValueTable::overwrite_chain (a stored value is replaced in place; second extraction of the same function text under the contract of the overwrite path)"],
+                              "assumes": ["as unit chain_write (entry cursor by contract, chain layout as a spec, next_free over a ghost free set)",
+                                          "precondition: the chain being replaced is a proper chain in the current view of the table -- distinct slots, none of them free or slot 0, each linking to the next (ValueTable::read_next_part by contract: the link decoded from the slot, U6-R)",
+                                          "ValueTable::clear_chain is a contract: it writes only the slots of the old chain from the given slot on and returns them to the free list (clear_slot per part: unit free_list); partial correctness of its loop"]}
+PROPS["C06"]["verus_units"] = list(PROPS["C06"].get("verus_units", [])) + ["chain_replace"]
+PROPS["C06"]["claim"] = PROPS["C06"]["claim"] + " In-place overwrite, unbounded (Verus: any length of the old chain and of the new value): the same function reuses the slots of the old chain in order as far as the new value needs them -- the value keeps its first slot --, continues on slots from the free set when the old chain is shorter, lays the new value out in the same prescribed format, touches no slot outside these, and releases the parts of the old chain behind the last one it reused (a shorter value frees the tail)."
+PROPS["C06"]["does_not_cover"] = [x for x in PROPS["C06"]["does_not_cover"] if "composition over histories" not in x] + ["composition over histories of overwrites (each step is proved against the chain format; the reader side for_parts is bounded, U6-R)"]
+PROPS["C14"]["verus_units"] = list(PROPS["C14"].get("verus_units", [])) + ["chain_replace"]
+PROPS["C14"]["claim"] = PROPS["C14"]["claim"] + " An in-place overwrite leaves no orphan part: the surplus tail of the old chain is released, the reused slots stay linked (Verus, unit chain_replace)."
